@@ -207,3 +207,144 @@ theorem u8_eq_iff (a : UInt8) (n : Nat) (h : n < 256) : a = UInt8.ofNat n ↔ a.
   · intro e; subst e; simp
 
 end GL
+
+namespace GL
+
+theorem decode1_spec (s : GoStr) (r : Rune) (t : GoStr) (h : decode1 s = some (r, t)) :
+    DecInvalid s r t ∨ DecValid s r t := by
+  cases s with
+  | nil => simp [decode1] at h
+  | cons b0 rest =>
+    have hb0 := b0.toNat_lt
+    simp only [decode1] at h
+    split at h
+    · -- ASCII
+      rename_i hlt
+      simp only [Option.some.injEq, Prod.mk.injEq] at h
+      obtain ⟨rfl, rfl⟩ := h
+      have hn : b0.toNat < 128 := by
+        have := UInt8.lt_iff_toNat_lt.1 hlt
+        simpa using this
+      right
+      refine ⟨rfl, ?_, ?_, by simp, ?_, ?_⟩
+      · simp [encodeRune, hn]
+      · simp only [validRune, Bool.and_eq_true, decide_eq_true_eq, Bool.not_eq_true', Bool.and_eq_false_iff, decide_eq_false_iff_not]
+        omega
+      · intro ⟨_, hc⟩; simp only at hc; omega
+      · intro hc; simp only at hc; omega
+    · split at h
+      · -- two bytes
+        rename_i hr
+        simp only [Bool.and_eq_true, decide_eq_true_eq, UInt8.le_iff_toNat_le] at hr
+        have hr' : 0xC2 ≤ b0.toNat ∧ b0.toNat ≤ 0xDF := hr
+        split at h
+        · rename_i b1 r1
+          split at h
+          · rename_i hc
+            simp only [Option.some.injEq, Prod.mk.injEq] at h
+            obtain ⟨rfl, rfl⟩ := h
+            obtain ⟨he, hv, hge⟩ := enc2 b0 b1 hr' ((cont_iff b1).1 hc)
+            right
+            refine ⟨rfl, he, hv, by simp, ?_, ?_⟩
+            · intro ⟨hw, _⟩; simp at hw
+            · intro _ b hb
+              simp only [List.mem_cons, List.not_mem_nil, or_false] at hb
+              rcases hb with rfl | rfl
+              · omega
+              · exact ((cont_iff _).1 hc).1
+          · simp only [Option.some.injEq, Prod.mk.injEq] at h
+            obtain ⟨rfl, rfl⟩ := h
+            exact Or.inl (runeError_invalid _ _)
+        · simp only [Option.some.injEq, Prod.mk.injEq] at h
+          obtain ⟨rfl, rfl⟩ := h
+          exact Or.inl (runeError_invalid _ _)
+      · split at h
+        · -- three bytes
+          rename_i hr
+          simp only [Bool.and_eq_true, decide_eq_true_eq, UInt8.le_iff_toNat_le] at hr
+          have hr' : 0xE0 ≤ b0.toNat ∧ b0.toNat ≤ 0xEF := hr
+          split at h
+          · rename_i b1 b2 r2
+            split at h
+            · rename_i hc
+              simp only [Bool.and_eq_true, decide_eq_true_eq, UInt8.le_iff_toNat_le, ite_toNat] at hc
+              obtain ⟨⟨hlo, hhi⟩, hc2⟩ := hc
+              simp only [Option.some.injEq, Prod.mk.injEq] at h
+              obtain ⟨rfl, rfl⟩ := h
+              have e1 : (b0 = 0xE0) ↔ b0.toNat = 0xE0 := u8_eq_iff b0 0xE0 (by decide)
+              have e2 : (b0 = 0xED) ↔ b0.toNat = 0xED := u8_eq_iff b0 0xED (by decide)
+              have h1 : (if b0.toNat = 0xE0 then 0xA0 else 0x80) ≤ b1.toNat ∧ b1.toNat ≤ (if b0.toNat = 0xED then 0x9F else 0xBF) := by
+                constructor
+                · by_cases c : b0 = 0xE0
+                  · simp only [c, if_true] at hlo; rw [if_pos (e1.1 c)]; exact hlo
+                  · simp only [c, if_false] at hlo; rw [if_neg (fun x => c (e1.2 x))]; exact hlo
+                · by_cases c : b0 = 0xED
+                  · simp only [c, if_true] at hhi; rw [if_pos (e2.1 c)]; exact hhi
+                  · simp only [c, if_false] at hhi; rw [if_neg (fun x => c (e2.2 x))]; exact hhi
+              obtain ⟨he, hv, hge, _⟩ := enc3 b0 b1 b2 hr' h1 ((cont_iff b2).1 hc2)
+              right
+              refine ⟨rfl, he, hv, by simp, ?_, ?_⟩
+              · intro ⟨hw, _⟩; simp at hw
+              · intro _ b hb
+                simp only [List.mem_cons, List.not_mem_nil, or_false] at hb
+                have hb1 : 128 ≤ b1.toNat := by
+                  obtain ⟨h1a, _⟩ := h1
+                  split at h1a <;> omega
+                rcases hb with rfl | rfl | rfl
+                · omega
+                · exact hb1
+                · exact ((cont_iff _).1 hc2).1
+            · simp only [Option.some.injEq, Prod.mk.injEq] at h
+              obtain ⟨rfl, rfl⟩ := h
+              exact Or.inl (runeError_invalid _ _)
+          · simp only [Option.some.injEq, Prod.mk.injEq] at h
+            obtain ⟨rfl, rfl⟩ := h
+            exact Or.inl (runeError_invalid _ _)
+        · split at h
+          · -- four bytes
+            rename_i hr
+            simp only [Bool.and_eq_true, decide_eq_true_eq, UInt8.le_iff_toNat_le] at hr
+            have hr' : 0xF0 ≤ b0.toNat ∧ b0.toNat ≤ 0xF4 := hr
+            split at h
+            · rename_i b1 b2 b3 r3
+              split at h
+              · rename_i hc
+                simp only [Bool.and_eq_true, decide_eq_true_eq, UInt8.le_iff_toNat_le, ite_toNat] at hc
+                obtain ⟨⟨⟨hlo, hhi⟩, hc2⟩, hc3⟩ := hc
+                simp only [Option.some.injEq, Prod.mk.injEq] at h
+                obtain ⟨rfl, rfl⟩ := h
+                have e1 : (b0 = 0xF0) ↔ b0.toNat = 0xF0 := u8_eq_iff b0 0xF0 (by decide)
+                have e2 : (b0 = 0xF4) ↔ b0.toNat = 0xF4 := u8_eq_iff b0 0xF4 (by decide)
+                have h1 : (if b0.toNat = 0xF0 then 0x90 else 0x80) ≤ b1.toNat ∧ b1.toNat ≤ (if b0.toNat = 0xF4 then 0x8F else 0xBF) := by
+                  constructor
+                  · by_cases c : b0 = 0xF0
+                    · simp only [c, if_true] at hlo; rw [if_pos (e1.1 c)]; exact hlo
+                    · simp only [c, if_false] at hlo; rw [if_neg (fun x => c (e1.2 x))]; exact hlo
+                  · by_cases c : b0 = 0xF4
+                    · simp only [c, if_true] at hhi; rw [if_pos (e2.1 c)]; exact hhi
+                    · simp only [c, if_false] at hhi; rw [if_neg (fun x => c (e2.2 x))]; exact hhi
+                obtain ⟨he, hv, hge, _⟩ := enc4 b0 b1 b2 b3 hr' h1 ((cont_iff b2).1 hc2) ((cont_iff b3).1 hc3)
+                right
+                refine ⟨rfl, he, hv, by simp, ?_, ?_⟩
+                · intro ⟨hw, _⟩; simp at hw
+                · intro _ b hb
+                  simp only [List.mem_cons, List.not_mem_nil, or_false] at hb
+                  have hb1 : 128 ≤ b1.toNat := by
+                    obtain ⟨h1a, _⟩ := h1
+                    split at h1a <;> omega
+                  rcases hb with rfl | rfl | rfl | rfl
+                  · omega
+                  · exact hb1
+                  · exact ((cont_iff _).1 hc2).1
+                  · exact ((cont_iff _).1 hc3).1
+              · simp only [Option.some.injEq, Prod.mk.injEq] at h
+                obtain ⟨rfl, rfl⟩ := h
+                exact Or.inl (runeError_invalid _ _)
+            · simp only [Option.some.injEq, Prod.mk.injEq] at h
+              obtain ⟨rfl, rfl⟩ := h
+              exact Or.inl (runeError_invalid _ _)
+          · simp only [Option.some.injEq, Prod.mk.injEq] at h
+            obtain ⟨rfl, rfl⟩ := h
+            exact Or.inl (runeError_invalid _ _)
+
+end GL
